@@ -49,9 +49,9 @@ func TestMain(m *testing.M) {
 		evid.Spec{Name: "TestReplay", Kind: "plain", QuickShards: 1, ThoroughShards: 1},
 		evid.Spec{Name: "TestModelSelf", Kind: "plain", QuickShards: 1, ThoroughShards: 1},
 		evid.Spec{Name: "TestExhaustiveTrees", Kind: "plain", QuickShards: 8, ThoroughShards: 16, TimeoutS: 3000},
-		evid.Spec{Name: "TestPropRandomTrees", Kind: "rapid", Quick: 640, Thorough: 24000, QuickShards: 8, ThoroughShards: 16},
+		evid.Spec{Name: "TestPropRandomTrees", Kind: "rapid", Quick: 1600, Thorough: 24000, QuickShards: 8, ThoroughShards: 16},
 		evid.Spec{Name: "TestPropSmallTrees", Kind: "rapid", Quick: 8000, Thorough: 400000, QuickShards: 4, ThoroughShards: 16},
-		evid.Spec{Name: "TestPropCLI", Kind: "rapid", Quick: 96, Thorough: 3200, QuickShards: 8, ThoroughShards: 16, TimeoutS: 3000},
+		evid.Spec{Name: "TestPropCLI", Kind: "rapid", Quick: 160, Thorough: 3200, QuickShards: 8, ThoroughShards: 16, TimeoutS: 3000},
 	)
 	evid.Commands("obigrep", "obiannotate")
 	evid.Note("rule", "A case is a taxonomy (parent array with parent[i]<i, distinct taxids in several numbering schemes, rank labels from the NCBI ladder with 'no rank' gaps and repeated labels on a path, scientific names, merged-id aliases, ids belonging to nothing) built either through the obitax API (AddNewTaxa in a generated order, ReindexParent, AddNewName, AddNewAlias) or by writing nodes.dmp/names.dmp/merged.dmp and calling ncbitaxdump.LoadNCBITaxDump, plus queries. "+
